@@ -457,7 +457,7 @@ func init() {
 	core.Register(&core.Prop{
 		ID:    "C13",
 		Title: "Set algebra is exact and free of side effects",
-		Cases: func(tier string) int { return tierN(tier, 45000, 900000) },
+		Cases: func(tier string) int { return tierN(tier, 45000, 4500000) },
 		Run:   runC13,
 		Rule: fmt.Sprintf("one pair of sets per case (kinds HashSet, LinkedHashSet, TreeSet with natural/reversed/coarsened comparator given as the same function value; pair relations %v; either operand larger; built by histories with transient members), "+
 			"on which Intersection, Union and Difference are each checked for exact members, a fresh result object, unchanged operands, comparator order of a TreeSet result (also after further Adds) and independence under mutation of each of the three sets in turn. "+
